@@ -61,9 +61,22 @@ def get_use_tree(
         if not only_list:
             merged_use_list = use_stmnt.only_list.copy()
             merged_rename = use_stmnt.rename_map.copy()
+            # Renames of a rename list (USE mod, loc => rem) higher up apply to
+            # what this module re-exports as well
+            for loc_name, rem_name in rename_map.items():
+                if use_stmnt.only_list:
+                    if rem_name not in use_stmnt.only_list:
+                        continue
+                    merged_use_list.add(loc_name)
+                merged_rename[loc_name] = use_stmnt.rename_map.get(rem_name, rem_name)
         elif len(use_stmnt.only_list) == 0:
             merged_use_list = only_list.copy()
             merged_rename = rename_map.copy()
+            # ... and so do the renames of a rename list met on the way down
+            for only_name in only_list:
+                mapped_name = rename_map.get(only_name, only_name)
+                if mapped_name in use_stmnt.rename_map:
+                    merged_rename[only_name] = use_stmnt.rename_map[mapped_name]
         else:
             merged_use_list, merged_rename = intersect_only(use_stmnt)
             if len(merged_use_list) == 0:
